@@ -64,6 +64,20 @@ pub mod mm {
     }
     #[inline]
     pub fn powf(x: f32, y: f32) -> f32 {
+        if x == 0.0 {
+            // Micromath computes exp(y * ln(x)); its ln has no zero: a zero
+            // base overflows (a panic in debug builds for -0.0) or gives
+            // garbage such as 0^0.5 = 7.7e-20 and 0^-1 = 1.7e38
+            return if y == 0.0 {
+                1.0
+            } else if y > 0.0 {
+                0.0
+            } else if y < 0.0 {
+                f32::INFINITY
+            } else {
+                y // NaN
+            };
+        }
         mm::powf(x, y)
     }
     #[inline]
